@@ -156,5 +156,62 @@ pub fn run() -> i32 {
     for (k, exp) in [("COpt", vec!["E003", "E006"]), ("CNestedBad", vec!["E005", "E006"]), ("CSeq", vec!["E005", "E006"]), ("CPlainInside", vec!["E004", "E006"])] {
         judge(&mut rep, &format!("F4 key {k}"), &format!("{prelude}struct D {{ d: Dictionary<{k}, bool> }}\n"), &exp.into_iter().collect());
     }
+    // ---- F6: "attributes only where legal, well-formed and not repeated". Reference table (the language's attribute catalogue): allow(>=1 lint
+    //      names, not DuplicateFile) anywhere except modules and type references, repeatable; deprecated(<=1 argument) not on modules, type
+    //      references, files, parameters / return members; compress / slicedFormat(>=1 of Args, Return) and oneway(no argument) on operations
+    //      only, oneway only without return values; unknown unprefixed directives nowhere; foreign `x::y(...)` attributes anywhere, repeatable.
+    {
+        let targets: [(&str, &str, &str); 14] = [
+            ("file", "[[@]]\nmodule M\nstruct S { a: bool }\n", "file"), ("module", "[@]\nmodule M\nstruct S { a: bool }\n", "module"),
+            ("struct", "module M\n[@] struct S { a: bool }\n", "def"), ("field", "module M\nstruct S { [@] a: bool }\n", "def"),
+            ("type reference", "module M\nstruct S { a: [@] bool }\n", "typeref"), ("interface", "module M\n[@] interface I { op() }\n", "def"),
+            ("operation without return", "module M\ninterface I { [@] op(p: bool) }\n", "op"), ("operation with return", "module M\ninterface I { [@] op() -> bool }\n", "opret"),
+            ("parameter", "module M\ninterface I { op([@] p: bool) }\n", "param"), ("return member", "module M\ninterface I { op() -> ([@] a: bool, b: bool) }\n", "param"),
+            ("enum", "module M\n[@] enum E { A }\n", "def"), ("enumerator", "module M\nenum E { [@] A }\n", "def"),
+            ("custom type", "module M\n[@] custom C\n", "def"), ("type alias", "module M\n[@] typealias T = bool\n", "def"),
+        ];
+        // (attribute text, kind, arguments well-formed?)
+        let attrs: [(&str, &str, bool); 22] = [
+            ("allow(Deprecated)", "allow", true), ("allow(All, BrokenDocLink)", "allow", true), ("allow(Nope)", "allow", false), ("allow()", "allow", false), ("allow", "allow", false),
+            ("allow(DuplicateFile)", "allow", false), ("allow(deprecated)", "allow", false),
+            ("deprecated", "deprecated", true), ("deprecated(\"reason\")", "deprecated", true), ("deprecated(\"a\", \"b\")", "deprecated", false),
+            ("compress(Args)", "operation-only", true), ("compress(Args, Return)", "operation-only", true), ("compress", "operation-only", false), ("compress(Bad)", "operation-only", false), ("compress(args)", "operation-only", false),
+            ("slicedFormat(Return)", "operation-only", true), ("slicedFormat(Foo)", "operation-only", false),
+            ("oneway", "oneway", true), ("oneway(x)", "oneway", false),
+            ("foo", "unknown", true), ("foo(a)", "unknown", true), ("x::foo(a, \"b c\")", "foreign", true),
+        ];
+        let legal_on = |kind: &str, target: &str| -> bool {
+            match kind {
+                "allow" => !matches!(target, "module" | "typeref"),
+                "deprecated" => !matches!(target, "module" | "typeref" | "file" | "param"),
+                "operation-only" => matches!(target, "op" | "opret"),
+                "oneway" => target == "op",
+                "foreign" => true,
+                _ => false,
+            }
+        };
+        for (tname, template, tkind) in targets {
+            for (atext, akind, well_formed) in attrs {
+                let ok = legal_on(akind, tkind) && well_formed;
+                let text = template.replace('@', atext);
+                rep.case(true, || format!("F6 [{atext}] on {tname}"));
+                match codes(&text) {
+                    Err(m) => rep.counterexample(&format!("F6 [{atext}] on {tname}\n{text}"), "a verdict", &m),
+                    Ok(got) => if ok != got.is_empty() { rep.counterexample(&format!("F6 [{atext}] on {tname}\n{text}"), if ok { "accepted: the attribute is legal here and well-formed" } else { "rejected: the attribute is not legal here, or malformed" }, &format!("{got:?}")); },
+                }
+            }
+            // repetition: non-repeatable attributes at most once; allow and foreign attributes may repeat
+            for (pair, kind, repeatable) in [("deprecated] [deprecated(\"x\")", "deprecated", false), ("allow(All)] [allow(Deprecated)", "allow", true), ("compress(Args)] [compress(Return)", "operation-only", false), ("oneway] [oneway", "oneway", false), ("x::a] [x::a(b)", "foreign", true), ("deprecated] [x::y] [allow(All)", "deprecated", true)] {
+                let legal = legal_on(kind, tkind) && (kind != "deprecated" || pair.contains("x::y") || true) && (if pair.contains("allow(All)") { legal_on("allow", tkind) } else { true });
+                let ok = legal && repeatable;
+                let text = if tkind == "file" { template.replace("[[@]]", &format!("[[{}]]", pair.replace("] [", "]]\n[["))) } else { template.replace('@', pair) };
+                rep.case(true, || format!("F6 [{pair}] on {tname}"));
+                match codes(&text) {
+                    Err(m) => rep.counterexample(&format!("F6 [{pair}] on {tname}\n{text}"), "a verdict", &m),
+                    Ok(got) => if ok != got.is_empty() { rep.counterexample(&format!("F6 [{pair}] on {tname}\n{text}"), if ok { "accepted: every attribute is legal here and none is repeated illegally" } else { "rejected: an attribute is illegal here or repeated" }, &format!("{got:?}")); },
+                }
+            }
+        }
+    }
     rep.finish()
 }
